@@ -88,6 +88,7 @@ def _blank(cid, case, body, props) -> dict:
         "kind": "nt",
         "pmin": -1,
         "again": [],
+        "spagain": [],
         "first": True,      # the record contains the section's first note (windows of a long section: only the first one)
     }
 
@@ -119,7 +120,11 @@ def _project(rec, chart, tr):
             f()
         except Exception:  # noqa: BLE001
             pass
-    rec["again"] = [{"t": int(e.tick), "lanes": [int(x) for x in e.note.value]} for e in tr.note_events]
+    rec["again"] = [{"t": int(e.tick), "lanes": [int(x) for x in e.note.value], "h": e.hopo_state.name,
+                     "sp": -1 if e.star_power_data is None else int(e.star_power_data.star_power_event_index),
+                     "su": _su(e.sustain), "lg": int(e.longest_sustain), "et": int(e.end_tick),
+                     "eus": limbs(td_us(e.end_timestamp))} for e in tr.note_events]
+    rec["spagain"] = [{"t": int(e.tick), "l": int(e.sustain)} for e in tr.star_power_events]
     return rec
 
 
@@ -201,7 +206,7 @@ def observe_windows(case, props, window=60):
         t_hi = nl[hi]["t"] if hi < len(nl) else None
         mine = [n for n in notes if n["t"] >= t_lo and (t_hi is None or n["t"] < t_hi)]
         again = [n for n in rec["again"] if n["t"] >= t_lo and (t_hi is None or n["t"] < t_hi)]
-        r2 = dict(rec, id=f"{rec['id']}#w{w}", nl=nl[lo:hi], notes=mine, pmin=pmin, first=(w == 0), ph=[], sp=[], last=[], again=again)
+        r2 = dict(rec, id=f"{rec['id']}#w{w}", nl=nl[lo:hi], notes=mine, pmin=pmin, first=(w == 0), ph=[], sp=[], last=[], again=again, spagain=[])
         out.append(r2)
         if mine:
             pmin = max(pmin, max(n["p"] for n in mine))
